@@ -72,11 +72,12 @@ def ensure_built(need_bin=True, need_numlib=False, quiet=False):
         if not os.path.exists(ct) or open(ct).read() != tmpl:
             open(ct, 'w').write(tmpl)
         cl = os.path.join(shimdir, 'Cargo.lock')
-        if not os.path.exists(cl):
-            src = os.path.join(REPO, 'Cargo.lock')
+        if not os.path.exists(cl) or os.path.getsize(cl) == 0:
+            src = os.path.join(VERIF, 'shim', 'Cargo.lock.seed')
             if not os.path.exists(src):
-                src = os.path.join(VERIF, 'shim', 'Cargo.lock.seed')
-            open(cl, 'wb').write(open(src, 'rb').read())
+                src = os.path.join(REPO, 'Cargo.lock')
+            data = open(src, 'rb').read()
+            open(cl, 'wb').write(data)
         times = {}
         times['shim'] = _run_build(['cargo', 'build', '--release', '--offline', '-q'], shimdir, TARGET, 'shim')
         if need_bin:
